@@ -2,6 +2,7 @@
 
 HARNESSES = [
     dict(name="c03", kind="sched", srcs=["harness/c03/c03_doall.cpp"]),
+    dict(name="c04", kind="sched", srcs=["harness/c04/c04_term.cpp"]),
     dict(name="c05", kind="sched", srcs=["harness/c05/c05_barrier.cpp"]),
     dict(name="c16", kind="native", srcs=["harness/c16/c16_pstl.cpp"]),
     dict(name="c16e1", kind="sched", srcs=["harness/c16/c16_pstl.cpp"], defs=["-DC16_E1"]),
@@ -15,6 +16,39 @@ HARNESSES = [
 
 # variant -> repo targets needed
 PROPS = {
+    "C03": dict(
+        variants={"sched": ["galois_shmem"]},
+        units=[dict(type="rc", harness="c03", quick=36000, thorough=500000)],
+        engine="gsched+rapidcheck",
+        technique="property-based testing: rapidcheck-generated sequences of parallel regions (do_all over 7 range kinds, on_each, raw pool run, for_each) with changing thread counts, chunk sizes, stealing and busy-wait mode under controlled schedules and synthetic topologies; exactly-once counter oracle checked at return, vector-clock check of the entry and return edges",
+        rule=("cases = (topology, 1..4 consecutive regions each with kind/threads/size/chunk/steal, busy-wait toggles, bag fill thread "
+              "count, schedule); sizes from {0,1,<threads,chunk+-1,k*chunk+r,<400}; non-trivial = a region with >=2 threads in which a "
+              "steal was observed (element executed by another thread than its block owner) or whose thread count differs from the "
+              "previous region's; distinct = hash of the case"),
+        level_text=("Generated search; oracle: per-element visit counters == 1 and nothing else touched at the instant the call returns, "
+                    "on_each ids/thread identity/active count, no invocation after its region returned, payload written by the caller "
+                    "before the region readable by workers and worker writes readable by the caller without a happens-before race. "
+                    "Exploration only."),
+        level_note="trusted: gsched, TSan instrumentation, hooks; ranges up to 400 elements under the scheduler",
+        assumptions=["while busy-waiting (burnPower) every region uses the thread count given to burnPower (asserted by the pool)",
+                     "InsertBag iterated with at least as many active threads as filled it, when the known finding is listed"],
+    ),
+    "C04": dict(
+        variants={"sched": ["galois_shmem"]},
+        units=[dict(type="rc", harness="c04", quick=60000, thorough=800000)],
+        engine="gsched+rapidcheck",
+        technique="property-based testing: rapidcheck-generated work-passing histories (per-thread mailboxes, PRF fan-out to arbitrary threads incl. ones that already reported idle) driven through the real ring and tree detectors under controlled schedules; ledger oracle for soundness, epoch-bounded announcement for liveness, re-arming across rounds with changing thread counts",
+        rule=("cases = (ring|tree detector, topology, 1..4 consecutive rounds with thread counts 1..8, initial units per thread, fan-out, "
+              "depth, delays, work seed, schedule); non-trivial = >=2 threads AND a unit was delivered to another thread after that "
+              "thread had already reported idle in the round; distinct = hash of the case"),
+        level_text=("Soundness: whenever a thread observes globalTermination() the ledger (sent - processed, mailboxes, in-flight) is zero. "
+                    "Liveness: after quiescence, termination is announced before every thread has made 8n+8 further idle reports (fair "
+                    "tail enforced by the engine), and the run ends within the engine's step bound. Reuse: same oracles in every round "
+                    "after initializeThread on all threads + barrier. Exploration only."),
+        level_note="trusted: gsched (volatile accesses of the tree detector are scheduling points), harness mailboxes; the liveness bound is a bound on fair schedules of this harness, not a proof",
+        assumptions=["every thread follows the executor's protocol: drain, then localTermination(didWork), until globalTermination()",
+                     "re-arming = initializeThread() on every participant followed by a barrier, as the executors do"],
+    ),
     "C05": dict(
         variants={"sched": ["galois_shmem"]},
         units=[dict(type="rc", harness="c05", quick=40000, thorough=600000)],
@@ -142,9 +176,9 @@ PROPS = {
 }
 
 ENGINES = [
-    dict(name="gsched", path="engine/gsched", serves_properties=["C01", "C02", "C05", "C08"],
+    dict(name="gsched", path="engine/gsched", serves_properties=["C01", "C02", "C03", "C04", "C05", "C08", "C16"],
          kind_free_text="schedule-owning runtime behind clang's TSan instrumentation ABI + pthread interposition; vector-clock HB tracker"),
-    dict(name="rapidcheck fork driver", path="harness/common/verif_e1.h", serves_properties=["C01", "C02", "C05", "C08"],
+    dict(name="rapidcheck fork driver", path="harness/common/verif_e1.h", serves_properties=["C01", "C02", "C03", "C04", "C05", "C08", "C16"],
          kind_free_text="rapidcheck generation/shrinking in a parent process, one forked child per case, replay files"),
 ]
 
